@@ -16,7 +16,8 @@ EXPLANATION = (
     'classes reachable from State/WebsocketSession - is initialised inside __init__ from a literal, a constructor call '
     'evaluated there, or fresh random data, never from a parameter carrying an older object, a class-level mutable or '
     'a module-level instance; no connection-path function writes module-level state (tabled: the content-constant '
-    'Opcode name cache); a new session object with fresh socket/timer/buffer fields is created per connect().')
+    'Opcode name cache); a new session object with fresh socket/timer/buffer fields is created per connect().'
+    ' Also decided: package-wide isolation (objects created once per class or per function definition - class-level attributes, parameter defaults - are only read), so that no buffer, validator, cache, lock or option table is shared between connections by accident.')
 NOT_DECIDED = 'event-for-event equality with a fresh object (relational); follows if no state survives'
 ASSUMPTIONS = ['no monkey-patching / setattr from outside the package']
 
